@@ -399,6 +399,7 @@ def verify_unit(name, spec_path, repo, build_dir, extra=None, do_canary=True, ti
 
 
 def make_canary_text(text):
+    text = text.replace("#[verifier::loop_isolation(false)]", "")
     toks, franges = fn_ranges_of(text)
     inserts = {}   # token index after which to insert -> canary id
     cid = 0
